@@ -117,3 +117,15 @@ claim("C15",
       "Does not decide thread-count independence or bitwise repeatability (floating-point reduction order is a run-time fact). "
       "Trusted: the frozen inventories with reasons; single-threaded Python driver.",
       "DESIGN.md section 4, C15")
+
+claim("C01",
+      "sibling def-chain agreement between energy-side and derivative-side integral pipelines, truth-table comparison of special-case predicates, "
+      "affine analysis of finite-difference stencils, CFG force-assembly rule, sympy derivative of the symbolically interpreted core-core energy",
+      "Decides that the analytical derivative code differentiates the same parameter pipeline the energy code evaluates, that the "
+      "core-core special cases and method dispatch agree on every element pair, that every semi-numerical stencil is central, "
+      "restoring and differenced in the right order, that forces are minus the gradient of the reported energy with a clean "
+      "gradient buffer and an antisymmetric real-atom scatter (padding rows exactly zero), and - by expression algebra - that the "
+      "analytical core-core gradient equals the derivative of the core-core energy for all six (method, X-H) cases.",
+      "Does not decide numerical agreement of whole-energy finite differences, the local-frame derivative kernels (der_TETCILF) or "
+      "the excited-state Z-vector gradient. Trusted: sympy, masked straight-line interpreter.",
+      "DESIGN.md section 4, C01")
